@@ -10,9 +10,13 @@ One step of the Givens sweep inside `pyphysim.util.misc.gmd` (the geometric mean
 decomposition): the two rotations `G1`, `G2` the code builds from
 `δ1 = d[k]`, `δ2 = d[k+1]` and the geometric mean `σ̄` are orthogonal and turn
 `diag(δ1, δ2)` into `[[σ̄, x], [0, y]]` with exactly the `x`, `y` the code stores.
-(The whole sweep — permutations, the bookkeeping of `perm / invperm / z`, and the
-argument that a straddling pair always exists — is NOT proved; the result of `gmd`
-is a contract parameter of the C04 theorems, checked numerically per case.)
+(This file is the 2×2 algebra only.  The whole sweep — permutations, the bookkeeping of
+`perm / invperm / z`, the argument that a straddling pair always exists, array bounds —
+is proved for the executable model `PyPhysim.LinAlg.gmd` in `Proofs/C20GmdInv*.lean`;
+`Proofs/C04GmdFromSvd.lean` carries that result into the C04 vocabulary, so that the
+`…_from_svd` theorems of `Properties/C04.lean` need no hypothesis about `gmd`.  The
+contract-conditional theorems `gmd_roundtrip` / `encode_energy_gmd` still take the result
+of `gmd` as a contract parameter.)
 -/
 namespace PyPhysim.C04.Pf
 open Matrix
